@@ -358,6 +358,15 @@ func (osObj *VirtualOS) OpenFile(name string, flag int, perm FileMode) (File, er
 	return mount.Source.OpenFile(resolvedPath, flag, perm)
 }
 
+// isUnderMount reports whether path lies under the mount point target. Whole
+// path components are compared: "/tmpfoo/x" is not under "/tmp".
+func isUnderMount(path, target string) bool {
+	if !strings.HasPrefix(path, target) {
+		return false
+	}
+	return len(path) == len(target) || strings.HasSuffix(target, "/") || path[len(target)] == '/'
+}
+
 func (osObj *VirtualOS) findMount(path string) (*Mount, string, bool) {
 	endsWithSlash := strings.HasSuffix(path, "/")
 	if !filepath.IsAbs(path) {
@@ -373,7 +382,7 @@ func (osObj *VirtualOS) findMount(path string) (*Mount, string, bool) {
 			// Exact match
 			return v, "/", true
 		}
-		if strings.HasPrefix(path, k) {
+		if isUnderMount(path, k) {
 			// Prefix match. Keep looking to confirm this is the longest match.
 			if match == nil || len(k) > len(match.Target) {
 				match = v
